@@ -36,6 +36,10 @@ def pat_matches(pat, t: int) -> bool:
 
 class Index:
     def __init__(self, sc: dict, tr: list, final: dict, meta: dict):
+        # everything recorded after the final snapshot is the harness tearing the scenario down (stop, cancellation): not part of it
+        fin_seq = next((r['seq'] for r in tr if r['k'] == 'final'), None)
+        if fin_seq is not None:
+            tr = [r for r in tr if r['seq'] <= fin_seq]
         self.sc, self.R, self.final, self.meta = sc, tr, final or {'events': {}, 'buses': {}, 'log': []}, meta
         self.V: list[dict] = []
         self.C: collections.Counter = collections.Counter()
@@ -615,7 +619,7 @@ def c08(ix: Index) -> None:
     first_complete: dict[int, tuple] = {}
     obs = []
     for r in ix.R:
-        if r['k'] in ('aw_end', 'proc_end') and r.get('snap') is not None:
+        if r['k'] in ('aw_end', 'proc_end', 'accessed') and r.get('snap') is not None:
             obs.append((r['seq'], r['ev'], r['snap'], r['k']))
     for ev, f in ix.final['events'].items():
         obs.append((ix.end_seq, ev, tuple(f['snap']) if not isinstance(f['snap'], tuple) else f['snap'], 'final'))
